@@ -26,6 +26,71 @@ func checkEventsClosed(p *Prog, gc GlobalCheck) *VC {
 		}
 		return m
 	}
+	// static call graph over repository functions (by contract key) for the `local` event rule
+	calls := map[string]map[string]bool{}
+	for fn := range ssaAllFunctions(p) {
+		if fn.Pkg == nil || !strings.HasPrefix(fn.Pkg.Pkg.Path(), modulePath) {
+			continue
+		}
+		owner := fn
+		for owner.Parent() != nil {
+			owner = owner.Parent()
+		}
+		k := funcKey(owner)
+		for _, b := range fn.Blocks {
+			for _, ins := range b.Instrs {
+				if call, ok := ins.(ssa.CallInstruction); ok {
+					ck, _ := (&fnTrans{vc: vc}).calleeKey(call.Common())
+					if ck != "" {
+						if calls[k] == nil {
+							calls[k] = map[string]bool{}
+						}
+						calls[k][ck] = true
+					}
+				}
+			}
+		}
+	}
+	mentions := func(fc *FuncContract, ev string) bool {
+		for _, e := range fc.Emits {
+			if e.Event == ev {
+				return true
+			}
+		}
+		for _, e := range fc.MayEmit {
+			if e == ev {
+				return true
+			}
+		}
+		for _, cl := range append(append([]Clause{}, fc.Ensures...), fc.Requires...) {
+			if strings.Contains(cl.Src, ev) {
+				return true
+			}
+		}
+		return false
+	}
+	// reachedByMentioner[ev][f]: f is statically reachable from a function whose contract mentions ev
+	reachedBy := func(ev string) map[string]bool {
+		seen := map[string]bool{}
+		var stack []string
+		for k, fc := range cs.Funcs {
+			if !fc.Extern && mentions(fc, ev) {
+				stack = append(stack, k)
+			}
+		}
+		for len(stack) > 0 {
+			k := stack[len(stack)-1]
+			stack = stack[:len(stack)-1]
+			for c := range calls[k] {
+				if !seen[c] {
+					seen[c] = true
+					stack = append(stack, c)
+				}
+			}
+		}
+		return seen
+	}
+	reachCache := map[string]map[string]bool{}
 	type finding struct{ fn, callee, event string }
 	var names []string
 	results := map[string][]finding{}
@@ -69,6 +134,15 @@ func checkEventsClosed(p *Prog, gc GlobalCheck) *VC {
 						results[short] = nil
 					}
 					if !own[ev] {
+						if ed := cs.Events[ev]; ed != nil && ed.Local {
+							// a local event matters only below functions whose contracts talk about it
+							if reachCache[ev] == nil {
+								reachCache[ev] = reachedBy(ev)
+							}
+							if !reachCache[ev][key] {
+								continue
+							}
+						}
 						results[short] = append(results[short], finding{short, ck, ev})
 					}
 				}
